@@ -251,11 +251,24 @@ def _run_shard_wrapper(args):
     mod = sys.modules.get(module_name) or __import__(
         module_name, fromlist=["x"])
     t0 = time.time()
+    # watchdog: a hanging shard (e.g. code under test blocking on a real
+    # lock that the environment model does not own) is a harness error
+    import signal
+    limit = int(os.environ.get("VERIF_SHARD_TIMEOUT", "1500"))
+
+    def on_alarm(signum, frame):
+        raise TimeoutError("shard exceeded %d s" % limit)
+    old_handler = signal.signal(signal.SIGALRM, on_alarm)
+    signal.alarm(limit)
     try:
         res = mod.run_shard(shard)
     except BaseException:
         res = ShardResult()
-        res.error("shard %r crashed:\n%s" % (shard, traceback.format_exc()))
+        res.error("shard %s crashed:\n%s" % (repr(shard)[:300],
+                                             traceback.format_exc()))
+    finally:
+        signal.alarm(0)
+        signal.signal(signal.SIGALRM, old_handler)
     res.counters["_shard_s_max"] = 0
     res.maxima["shard_wall_s"] = time.time() - t0
     return res
